@@ -394,7 +394,7 @@ func pickPrio(r *vlib.Rand, mode int) int {
 }
 
 func genHeap(r *vlib.Rand, res *vlib.Result) Case {
-	c := Case{Kind: "heap", Ord: hc.Orders[r.Intn(3)], Ctor: hc.Ctors[r.Intn(2)]}
+	c := Case{Kind: "heap", Ord: hc.Orders[r.Intn(3)], Ctor: hc.PickCtor(r)}
 	pm := r.Intn(4)
 	res.Count(fmt.Sprintf("heap-prio-mode-%d", pm))
 	id := 0
@@ -457,7 +457,7 @@ func genHeap(r *vlib.Rand, res *vlib.Result) Case {
 // genPQ generates queue histories; positions (first / last / leaf / inner) are resolved against a
 // shadow instance of the real queue, the resulting case is a plain list of concrete ops.
 func genPQ(r *vlib.Rand, res *vlib.Result) Case {
-	c := Case{Kind: "pq", Ord: hc.Orders[r.Intn(3)], Ctor: hc.Ctors[r.Intn(2)], U: r.Range(3, 12)}
+	c := Case{Kind: "pq", Ord: hc.Orders[r.Intn(3)], Ctor: hc.PickCtor(r), U: r.Range(3, 12)}
 	pm := r.Intn(4)
 	res.Count(fmt.Sprintf("pq-prio-mode-%d", pm))
 	if r.Chance(1, 2) {
@@ -638,7 +638,7 @@ func genPQ(r *vlib.Rand, res *vlib.Result) Case {
 // bigCase: long histories on large heaps (thorough).
 func bigCase(r *vlib.Rand, size int, pq bool) Case {
 	if pq {
-		c := Case{Kind: "pq", Ord: hc.Orders[r.Intn(3)], Ctor: hc.Ctors[r.Intn(2)], U: 6}
+		c := Case{Kind: "pq", Ord: hc.Orders[r.Intn(3)], Ctor: hc.PickCtor(r), U: 6}
 		keys := size
 		for i := 0; i < keys/2; i++ {
 			c.Init = append(c.Init, [2]int{r.Intn(keys), r.Intn(keys / 3)})
@@ -655,7 +655,7 @@ func bigCase(r *vlib.Rand, size int, pq bool) Case {
 		}
 		return c
 	}
-	c := Case{Kind: "heap", Ord: hc.Orders[r.Intn(3)], Ctor: hc.Ctors[r.Intn(2)]}
+	c := Case{Kind: "heap", Ord: hc.Orders[r.Intn(3)], Ctor: hc.PickCtor(r)}
 	id := 0
 	for i := 0; i < size/2; i++ {
 		id++
@@ -931,7 +931,7 @@ func exhaustive(driver string, res *vlib.Result, maxN int, deadline time.Time) e
 		for variant := 0; variant < 4; variant++ {
 			kind := []string{"heap", "pq"}[variant/2]
 			viaInit := variant%2 == 1
-			c := Case{Kind: kind, Ord: "nat", Ctor: hc.Ctors[(idx+variant)%2], U: n + 1}
+			c := Case{Kind: kind, Ord: "nat", Ctor: hc.Ctors[(idx+variant)%len(hc.Ctors)], U: n + 1}
 			for i, p := range seq {
 				switch {
 				case kind == "heap" && viaInit:
@@ -1028,12 +1028,46 @@ func exhaustive(driver string, res *vlib.Result, maxN int, deadline time.Time) e
 	return st
 }
 
+// directedCtors: the same small history under every order and every constructor family.
+func directedCtors() []Case {
+	prios := []int{5, 3, 8, 1, 9, 2, 7, 12, 4, 3, 16, 1}
+	var out []Case
+	for _, kind := range []string{"heap", "pq"} {
+		for _, ord := range hc.Orders {
+			for _, ctor := range hc.Ctors {
+				for _, viaInit := range []bool{false, true} {
+					c := Case{Kind: kind, Ord: ord, Ctor: ctor, U: len(prios) + 1}
+					for i, p := range prios {
+						switch {
+						case kind == "heap" && viaInit:
+							c.Init = append(c.Init, [2]int{p, i + 1})
+						case kind == "heap":
+							c.Ops = append(c.Ops, Op{Name: "push", A: p, B: i + 1})
+						case viaInit:
+							c.Init = append(c.Init, [2]int{i, p})
+						default:
+							c.Ops = append(c.Ops, Op{Name: "update", A: i, B: p})
+						}
+					}
+					if kind == "heap" {
+						c.Ops = append(c.Ops, Op{Name: "pop"}, Op{Name: "push", A: 0, B: 99}, Op{Name: "pop"})
+					} else {
+						c.Ops = append(c.Ops, Op{Name: "qpop"}, Op{Name: "update", A: 3, B: 20}, Op{Name: "update", A: 6, B: 0}, Op{Name: "remove", A: 0}, Op{Name: "qpop"})
+					}
+					out = append(out, c)
+				}
+			}
+		}
+	}
+	return out
+}
+
 func main() {
 	env := vlib.GetEnv()
 	res := vlib.NewResult("C05", "random Heap histories (Push/Pop/Peek/Len/Grow/Shrink; mixed, grow-then-drain, sawtooth, malformed pops on empty; "+
 		"4 priority ranges from all-ties to wide; with and without an initial slice) and PriorityQueue histories (Update new / existing lower, higher, equal, to a tie; "+
 		"Remove of the key at the first / last / a leaf / an inner array position and of absent keys; Pop/Peek/Contains/Priority/Len; initial lists with duplicate keys), "+
-		"3 orders x less/cmp constructors, plus the corpus; a case is non-trivial if it has >= 5 ops, reaches size >= 3 and pops / removes / re-prioritises an element at size >= 3; "+
+		"3 orders x constructors (less; compare functions returning -1/0/+1, key differences, +-1000, MinInt64/MaxInt64), plus the corpus and a directed pass over every order x constructor; a case is non-trivial if it has >= 5 ops, reaches size >= 3 and pops / removes / re-prioritises an element at size >= 3; "+
 		"distinct = different constructor + op sequence. thorough adds every insertion order of <= 7 priorities with every tie pattern (built by pushes and by the constructor, heap and queue) "+
 		"x every single follow-up op (each base counts as one distinct non-trivial case) and heaps / queues up to 10^4 elements")
 	m, err := vlib.StartModel(env.Driver, "heap")
@@ -1076,6 +1110,14 @@ func main() {
 			os.Exit(3)
 		}
 		res.Count("corpus")
+		res.Case(c.Key(), stats(c, res), nil)
+		check(c, m, res)
+	}
+	// directed: every order x every constructor family (the compare families differ in the magnitudes they
+	// return), heap and queue, built by the constructor and by pushes / updates, then popped once and
+	// drained by the monitor
+	for _, c := range directedCtors() {
+		res.Count("directed-" + c.Kind + "-" + c.Ord + "-" + c.Ctor)
 		res.Case(c.Key(), stats(c, res), nil)
 		check(c, m, res)
 	}
